@@ -105,6 +105,13 @@ def blank_tail_cases(tier, rnd):
         for b in blanks:
             k += 1
             yield f'blank{k}', h + b, len(h)
+    # ... and a blank at the failure point with visible text AFTER it (on the same line, on a later line): the position is
+    # the blank's, not that of the next thing one can see
+    for h in heads:
+        for b in (' ', '\t ', '  ', ' \x0c'):
+            for tail in ('$def', 'X', '!\nabc', '\n$x', ' ' * 40 + '#', '9' * 120):
+                k += 1
+                yield f'blankvis{k}', h + b + tail, len(h)
 
 
 def observe_impl(gs, text, index):
